@@ -62,6 +62,14 @@ Proof.
 Qed.
 Print Assumptions C09_nodes_levels.
 
+(* the entry points of every tree (Construct.at / svt / tt / vt) are the trimmed
+   values of the algorithms that declare no input; no hypothesis needed *)
+Theorem C09_roots : forall e ro fo L r,
+  In r (t_roots (construct e ro fo) L) <->
+  exists b v, In b (build_order e) /\ a_deps (b_alg b) = [] /\ In v (b_own b) /\ trim L v = r.
+Proof. exact t_roots_iff. Qed.
+Print Assumptions C09_roots.
+
 (* ---- edges ------------------------------------------------------------- *)
 (* Y is a child of X in the tree of granularity L exactly when some value of
    Y's L-prefix is owned by an algorithm that declares a value with L-prefix X
